@@ -104,6 +104,8 @@ pub enum Api {
     BindReply { id: u64, how: String },
     BindNextErr { err: String },
     MuxDrop,
+    /// the scenario starts tearing down (aborting passive actors)
+    Teardown,
     ActorDone,
     Probe { flows: usize, ids: Vec<u32> },
     Note(String),
